@@ -3,12 +3,12 @@
 (* Input family for C10: command arguments made of identifiers, numbers    *)
 (* (decimal, hex with lower- and upper-case digits, negative), operators,  *)
 (* keywords and nested parentheses.  "E" stands for a multi-byte letter    *)
-(* (replaced by the harness).                                              *)
+(* (replaced by the harness); "xD3" and "D12" for an identifier and a number with non-ASCII decimal digits.                                              *)
 (***************************************************************************)
 EXTENDS Naturals, Sequences, FiniteSets, TLC, Json, SequencesExt
 
-Idents   == {"A", "VAR_TEMP_1", "nE", "_x9"}
-Numbers  == {"0", "7", "100", "0x1f", "0xFF", "0x0203abcd", "-5", "-0"}
+Idents   == {"A", "VAR_TEMP_1", "nE", "_x9", "xD3"}
+Numbers  == {"0", "7", "100", "0x1f", "0xFF", "0x0203abcd", "-5", "-0", "D12"}
 Ops      == {"+", "*", "==", "!=", "<", "<=", ">", ">=", "!", "&&", "||", "|", "=", "-", "/", "%", "&", "^", "~", "[", "]", "@", "."}
 Keywords == {"var", "flag", "defeated", "true", "FALSE", "local", "global", "value", "if", "else", "while",
              "end", "case", "default", "switch", "script", "const", "raw"}
